@@ -11,14 +11,14 @@ use crate::sets::{self, C16Case, Container, DynSet, KeyTy, Mode, Prov, Use, MODE
 use serde_json::{json, Value};
 use std::collections::{BTreeMap, BTreeSet};
 
-const SK_PROVS: [Prov; 9] = [
+const SK_PROVS: [Prov; 10] = [
     Prov::KeygenSeed, Prov::KeygenRng, Prov::KeygenOs, Prov::FromBytes, Prov::CloneOf, Prov::CloneOfFromBytes,
-    Prov::FromBytesZeroPrefix, Prov::FromBytesLostZero, Prov::FromBytesBitRot,
+    Prov::FromBytesZeroPrefix, Prov::FromBytesLostZero, Prov::FromBytesBitRot, Prov::FromBytesZeroBlock,
 ];
-const PK_PROVS: [Prov; 12] = [
+const PK_PROVS: [Prov; 13] = [
     Prov::KeygenSeed, Prov::KeygenRng, Prov::KeygenOs, Prov::FromBytes, Prov::CloneOf, Prov::CloneOfFromBytes,
     Prov::Derived, Prov::DerivedFromRoundTripped,
-    Prov::FromBytesZeroPrefix, Prov::FromBytesLostZero, Prov::FromBytesLostFF, Prov::FromBytesBitRot,
+    Prov::FromBytesZeroPrefix, Prov::FromBytesLostZero, Prov::FromBytesLostFF, Prov::FromBytesBitRot, Prov::FromBytesZeroBlock,
 ];
 const CONTAINERS: [Container; 5] = [Container::Bare, Container::Tuple, Container::OptionSome, Container::ResultOk, Container::Array2];
 
@@ -174,7 +174,13 @@ pub fn run(ctx: &Ctx) -> i32 {
                         let n_uses = if v == 0 { 0 } else { 1 + p.usize_below(5) };
                         let uses = gen_uses(&mut p, ty, n_uses);
                         let (ml, cl) = (p.usize_below(200), p.usize_below(40));
-                        cases.push((si, C16Case { ty, prov: *prov, uses, container: cont, seed: p.array32(), stream: p.bytes(64), msg: p.bytes(ml), ctx: p.bytes(cl) }));
+                        let seed = p.array32();
+                        let mut stream = p.bytes(64);
+                        if *prov == Prov::FromBytesZeroBlock {
+                            // enumerate (block size, block position) with the variant index, offset per container
+                            stream[1] = (v as usize + CONTAINERS.iter().position(|c| *c == cont).unwrap_or(0) * 5) as u8;
+                        }
+                        cases.push((si, C16Case { ty, prov: *prov, uses, container: cont, seed, stream, msg: p.bytes(ml), ctx: p.bytes(cl) }));
                     }
                 }
             }
@@ -255,7 +261,7 @@ pub fn run(ctx: &Ctx) -> i32 {
         level: "exploration",
         evaluations: evals,
         signatures: sigs.into_iter().collect(),
-        rule: "Exhaustive matrix (set x key type x provenance {keygen_from_seed, try_keygen_with_rng, try_keygen (OS seam), try_from_bytes, clone, clone of deserialised, get_public_key, get_public_key of round-tripped, and keys loaded from a FAULTED store: first 32 bytes never written (zero), artefact lost (all 0x00 / all 0xFF), seeded bit rot} x container {bare, (pk,sk) tuple, Option, Result<(pk,sk),_>, [key;2]}) times seeded use histories of 0..5 events (sign in four modes, a signing attempt during which the RNG device fails, verify good/bad, serialise, derive). The object is destroyed in place (ptr::drop_in_place) in a simulator-owned slot and every byte of each key window is read back with volatile reads. A case is distinct by (set, type, provenance, container, kinds of use); it is non-trivial only if, immediately before the drop, the window contained the key's rho and at least 25% non-zero bytes (otherwise the run aborts as a harness error).".into(),
+        rule: "Exhaustive matrix (set x key type x provenance {keygen_from_seed, try_keygen_with_rng, try_keygen (OS seam), try_from_bytes, clone, clone of deserialised, get_public_key, get_public_key of round-tripped, and keys loaded from a FAULTED store: first 32 bytes never written (zero), artefact lost (all 0x00 / all 0xFF), one aligned 32/64/128-byte block never written (zero), seeded bit rot} x container {bare, (pk,sk) tuple, Option, Result<(pk,sk),_>, [key;2]}) times seeded use histories of 0..5 events (sign in four modes, a signing attempt during which the RNG device fails, verify good/bad, serialise, derive). The object is destroyed in place (ptr::drop_in_place) in a simulator-owned slot and every byte of each key window is read back with volatile reads. A case is distinct by (set, type, provenance, container, kinds of use); it is non-trivial only if, immediately before the drop, the window contained the key's rho and at least 25% non-zero bytes (otherwise the run aborts as a harness error).".into(),
         samples,
         exhaustive: false,
         extra: json!({
